@@ -189,8 +189,8 @@ def gen_history(ctx, rng, tier, faults, force=None):
     elif start == 'full':
         warm = full_warm(ctx)
     bases = [g.base() for _ in range(rng.randint(1, 3))]
-    scenario = force.get('scenario') or wchoice(rng, {'random': 62, 'dataflow': 26, 'vertex-walk': 12})
-    p_derive = {'random': 0.12, 'dataflow': 0.6, 'vertex-walk': 0.2}[scenario]
+    scenario = force.get('scenario') or wchoice(rng, {'random': 57, 'dataflow': 25, 'vertex-walk': 11, 'capacity': 7})
+    p_derive = {'random': 0.12, 'dataflow': 0.6, 'vertex-walk': 0.2, 'capacity': 0.1}[scenario]
     script = vertex_walk(g, ctx) if scenario == 'vertex-walk' else []
     if script:
         L = max(L, len(script) + rng.randint(0, 6))
@@ -200,8 +200,25 @@ def gen_history(ctx, rng, tier, faults, force=None):
         weights = {'call': 58, 'repeat': 24, 'alias': 12, 'recycle': 6}
     ops = []
     callish = []            # ids of ops that executed a call
+    if scenario == 'capacity':
+        # a few geometry calls, then a filler of n distinct cells that drives any size-bounded cache past
+        # its capacity, then the same calls again: short histories from a cold process never evict anything
+        sizes = {40: 10, 70: 10, 130: 10, 260: 10, 520: 10, 1030: 12, 2100: 8, 4200: 4}
+        if tier == 'thorough':
+            sizes.update({8300: 3, 16500: 2, 33000: 1, 66000: 1})
+        n = wchoice(rng, sizes)
+        head = [_usable_call(g, ctx, 'geo', rng.choice(bases)) for _ in range(rng.randint(1, 3))]
+        for c in head:
+            ops.append(dict({'op': 'call', 'id': len(ops)}, **c))
+            callish.append(len(ops) - 1)
+        ops.append({'op': 'bulk', 'id': len(ops), 'kind': wchoice(rng, {'cell_to_lonlat': 5, 'cell_to_boundary': 3, 'lonlat_to_cell': 2}),
+                    'n': n, 'seed': rng.getrandbits(32)})
+        for c in head:
+            ops.append({'op': 'repeat', 'id': len(ops), 'f': c['f'], 'a': copy.deepcopy(c['a'])})
+            callish.append(len(ops) - 1)
+        L = len(ops) + rng.randint(0, 5)
     follow = None           # (ref) the caller just edited an object of call `ref`: usually it asks the same thing again
-    for i in range(L):
+    for i in range(len(ops), L):
         kind = wchoice(rng, weights)
         if kind not in ('call', 'bad_call', 'interrupt') and not callish:
             kind = 'call'
@@ -355,6 +372,7 @@ def run_one(ctx, run_seed, tier, faults, force=None):
         'mut_applied': sum(1 for r in recs if r.get('applied')),
         'recycled': sum(1 for r in recs if r.get('recycled')),
         'clock_jumps': out.get('clock_jumps', 0), 'clock_reads': out.get('clock_reads', 0),
+        'bulk_calls': sum(r.get('n', 0) for r in recs if r['op'] == 'bulk'),
         'raised': sum(1 for r in calls if r['outcome'][0] == 'exc' and not r.get('landed')),
         'funcs': sorted({r['f'] for r in calls}),
         'probes': out.get('probes') or {},
@@ -446,5 +464,16 @@ def minimise(ctx, spec, out, viol, max_runs=300, max_s=90.0):
             g3 = attempt(s3)
             if g3:
                 accept(s3, g3)
+    # shrink capacity fillers
+    for idx in range(len(state['spec']['ops'])):
+        op = state['spec']['ops'][idx]
+        while op.get('op') == 'bulk' and op['n'] > 8 and budget.ok():
+            s3 = copy.deepcopy(state['spec'])
+            s3['ops'][idx]['n'] = op['n'] // 2
+            g3 = attempt(s3)
+            if not g3:
+                break
+            accept(s3, g3)
+            op = state['spec']['ops'][idx]
     state['spec']['minimiser'] = {'candidate_runs': budget.runs}
     return state['spec'], state['out'], state['v']
